@@ -53,6 +53,8 @@ var serdeDtoList = []struct{ coq, dir, recv string }{
 	{"num_nat", "pkg/base/nt/num", "Nat"},
 	{"num_int", "pkg/base/nt/num", "Int"},
 	{"num_natplus", "pkg/base/nt/num", "NatPlus"},
+	{"num_uint", "pkg/base/nt/num", "Uint"},
+	{"numct_modulus", "pkg/base/nt/numct", "Modulus"},
 	{"numct_nat", "pkg/base/nt/numct", "Nat"},
 	{"numct_int", "pkg/base/nt/numct", "Int"},
 	{"k256_scalar", "pkg/base/curves/k256", "Scalar"},
